@@ -21,6 +21,13 @@ fn graphs() -> Vec<(GraphSpec, Vec<Vec<isize>>, Vec<Option<f64>>, Vec<Vec<f64>>)
             vec![vec![1.0, 0.5, 0.25], vec![0.0; 3], vec![0.0; 3]],
         ),
         (
+            // 4 loops in D = 2 (more loops than dimensions), external momentum, massive banana
+            GraphSpec { edges: vec![(0, 1), (1, 0), (0, 1), (1, 0), (0, 1)], weights: vec![1.25; 5], massive: vec![true; 5], externals: vec![0, 1], d: 2 },
+            vec![vec![1, 0, 0, 0], vec![0, 1, 0, 0], vec![0, 0, 1, 0], vec![0, 0, 0, 1], vec![-1, 1, -1, 1]],
+            vec![Some(1.0), Some(0.5), Some(2.0), Some(1.5), Some(0.75)],
+            vec![vec![0.0, 0.0], vec![0.0, 0.0], vec![0.0, 0.0], vec![0.0, 0.0], vec![1.5, -0.5]],
+        ),
+        (
             // 7 loops: matrix dimension 7 spills the SmallVecs to the heap
             GraphSpec { edges: vec![(7, 7); 7], weights: vec![1.5; 7], massive: vec![true; 7], externals: vec![], d: 2 },
             (0..7).map(|e| (0..7).map(|l| if e == l { 1 } else if l + 1 == e { 1 } else { 0 }).collect()).collect(),
